@@ -40,7 +40,7 @@ WRAPPERS = {'rmspe': ('rmspe', True, False), 'rmsle': ('rmsle', False, False), '
             'linear_residuals': ('residuals', False, False)}
 
 META = {
-    'rule': ('cases = vector pairs (y, y_hat) of length 1..200, magnitude 10^U(-3,6), classes {independent, '
+    'rule': ('cases = vector pairs (y, y_hat) of length 1..200, magnitude 10^U(-3,6) (8 %: small units 10^U(-12,-3)), classes {independent, '
              'proportional noise, y == y_hat, near-equal (relative 1e-6..1e-15), zeros, constant y, mixed sign, '
              'integer-valued, near a line}, each vector presented as float64 contiguous / strided view / int64 / '
              'strided int64 (one numba specialisation per dtype x layout pair), plus abscissae x and an (n,2) point '
